@@ -202,7 +202,7 @@ func RunC20(c *mc.Ctx) {
 		})
 	}
 
-	// ---- bloom: a LONG item (300 bytes) inserted / queried against every 1-2 op program over a 7-op
+	// ---- bloom: a LONG item (520 bytes) inserted / queried against every 1-2 op program over a 7-op
 	// sub-alphabet, both geometries
 	{
 		pl := [][]string{{"Add:L"}, {"Matches:L"}, {"Add:L", "Matches:L"}, {"Reload", "Add:L"}, {"Add:L", "Add:x"}, {"Unload", "Add:L"}}
@@ -221,9 +221,34 @@ func RunC20(c *mc.Ctx) {
 		if onlyBig {
 			cl = nil
 		}
-		c.Space("bloom: programs with a 300-byte item against programs over a 9-op sub-alphabet x 2 geometries", int64(len(cl)))
+		c.Space("bloom: programs with a 520-byte item against programs over a 9-op sub-alphabet x 2 geometries", int64(len(cl)))
 		c.ParFor(int64(len(cl)), func(w *mc.W, i int64) {
 			exploreCase(c, w, c20Case{Kind: "bloom", Bloom: cl[i], Bound: bound2}, 200000)
+		})
+	}
+
+	// ---- bloom: FIFTY hash functions, a 520-byte item (length x functions = 26000 hash steps per call)
+	// and a reload message of the same size with another tweak: pairs of 1-op programs over a 7-op
+	// sub-alphabet and the 2-op programs that end in a query of the long item
+	{
+		s50 := []string{"Add:L", "Matches:L", "Reload", "Unload", "Add:x", "Matches:x", "Msg"}
+		p50 := programs(s50, 1)
+		p50 = append(p50, []string{"Add:L", "Matches:L"}, []string{"Reload", "Matches:L"}, []string{"Reload", "Add:L"})
+		var c50 []*BloomConfig
+		for i := range p50 {
+			for j := i; j < len(p50); j++ {
+				if len(p50[i]) == 2 && len(p50[j]) == 2 {
+					continue
+				}
+				c50 = append(c50, &BloomConfig{Geom: "4x50", Progs: [][]string{p50[i], p50[j]}})
+			}
+		}
+		if onlyBig {
+			c50 = nil
+		}
+		c.Space("bloom: 50 hash functions, long item, same-size reload: pairs of programs over a 7-op sub-alphabet", int64(len(c50)))
+		c.ParFor(int64(len(c50)), func(w *mc.W, i int64) {
+			exploreCase(c, w, c20Case{Kind: "bloom", Bloom: c50[i], Bound: 2}, 200000)
 		})
 	}
 
